@@ -3,7 +3,14 @@
 import json, os, sys
 HERE = os.path.dirname(os.path.abspath(__file__))
 sys.path.insert(0, HERE)
-from checks.registry import CHECKS, NOT_APPLICABLE, HOOK_COMMITS
+import importlib
+from checks.registry import NOT_APPLICABLE, HOOK_COMMITS
+CHECKS = {}
+for f in sorted(os.listdir(os.path.join(HERE, "checks"))):
+    if f.startswith("c") and f.endswith(".py") and f[1:-3].isdigit():
+        mod = importlib.import_module("checks." + f[:-3])
+        if getattr(mod, "CLAIM", None):
+            CHECKS[f[:-3].upper()] = mod.CLAIM
 props = [json.loads(l) for l in open(os.path.join(HERE, "properties.jsonl"))]
 ids = [p["id"] for p in props]
 checks = []
